@@ -1,16 +1,18 @@
 #!/bin/sh
-# run_benign.sh: the behaviour-preserving refactorings under /verif/seeded/benign-*/ are applied together in a scratch
-# worktree of /repo and every quick check is run against it: each must exit 0 (no alarm on code where the property holds).
+# run_benign.sh [benign|evolve]: the behaviour-preserving refactorings (/verif/seeded/benign-*/) or the property-preserving
+# evolutionary changes (/verif/seeded/evolve-*/) are applied together in a scratch worktree of /repo and every quick check is
+# run against it: each must exit 0 (no alarm on code where the property holds).  Result: seeded/<kind>-result.txt
 cd /verif
-WT=/tmp/sr-benign; OUT=/tmp/sr-benign.out
+KIND=${1:-benign}
+WT=/tmp/sr-$KIND; OUT=/tmp/sr-$KIND.out
 git -C /repo worktree remove --force $WT 2>/dev/null; rm -rf $OUT
 git -C /repo worktree add -q --detach $WT HEAD || exit 2
-for d in seeded/benign-*; do git -C $WT apply /verif/$d/patch.diff || { echo "$d: patch does not apply"; exit 2; }; done
-: > seeded/benign-result.txt
+for d in seeded/$KIND-[0-9]*; do git -C $WT apply /verif/$d/patch.diff || { echo "$d: patch does not apply"; exit 2; }; done
+: > seeded/$KIND-result.txt
 for i in 01 02 03 04 05 06 07 08 09 10 11 12 13 14 15 16 17 18 19 20; do
   s=$(date +%s)
-  XDIS_VERIF_REPO=$WT XDIS_VERIF_OUT=$OUT /venv/bin/python vcheck.py C$i --tier quick > /tmp/benign.C$i.out 2>/tmp/benign.C$i.err; rc=$?
+  XDIS_VERIF_REPO=$WT XDIS_VERIF_OUT=$OUT /venv/bin/python vcheck.py C$i --tier quick > /tmp/$KIND.C$i.out 2>/tmp/$KIND.C$i.err; rc=$?
   e=$(date +%s)
-  echo "C$i exit=$rc wall=$((e-s))s $(grep 'tier=quick' /tmp/benign.C$i.out | tail -1) VIOLATION-lines=$(grep -c '^VIOLATION' /tmp/benign.C$i.out)" | tee -a seeded/benign-result.txt
+  echo "C$i exit=$rc wall=$((e-s))s $(grep 'tier=quick' /tmp/$KIND.C$i.out | tail -1) VIOLATION-lines=$(grep -c '^VIOLATION' /tmp/$KIND.C$i.out)" | tee -a seeded/$KIND-result.txt
 done
 git -C /repo worktree remove --force $WT; rm -rf $OUT; git -C /repo worktree prune
